@@ -30,6 +30,8 @@ func runC08(r *core.Run) {
 	r.Rule("R08.4", "context arguments derive from the caller's ctx", 20, true)
 	r.Rule("R08.5", "every comma-ok assertion is satisfiable", 10, true)
 	r.Rule("R08.6", "all-zero capability test is per capability type and leads to an error", 1, false)
+	r.Rule("R08.7", "the reply parsers tolerate fragmentation: every short read is ErrNotEnoughBytes (E-ERR, all call sites)", 213, true)
+	r.Rule("R08.8", "the announced packet size is applied for every PACKSIZE member", 1, false)
 
 	login := p.Func("tds", "Channel", "Login")
 	nextPkg := p.Func("tds", "Channel", "NextPackage")
@@ -245,6 +247,8 @@ func runC08(r *core.Run) {
 		checkAssertsSatisfiable(r, "R08.5", fn)
 	}
 	c08AllZero(r, login)
+	errSites(r, newErrFlow(p), "R08.7")
+	packSizeEveryMember(r, "R08.8")
 }
 
 // c08Closure: every `return true, nil` is under assertOK(*LoginAckPackage) && Status == SUCCEED.
